@@ -260,9 +260,26 @@ def tally(ctx, fam, p):
         ctx.tally('tseitin charges', 'None' if ch is None else ('len=n' if len(ch) == p['G']['n'] else ('shorter' if len(ch) < p['G']['n'] else 'longer')))
 
 
+def check_graph_views(ctx, seen, g):
+    """the model takes a graph as (n, sorted edge list): check that this IS what cnfgen.Graph shows
+    (edges() in lexicographic order with u < v, neighbors() sorted) and that the hypothesis graph_wf of
+    the theorems holds for it"""
+    key = (g['n'], tuple(tuple(e) for e in g['edges']))
+    if key in seen:
+        return
+    seen[key] = g
+    G = fam_c02.to_impl_graph(g)
+    impl_edges = [list(e) for e in G.edges()]
+    nb_ok = all(list(G.neighbors(v)) == sorted(set(G.neighbors(v))) for v in range(1, g['n'] + 1))
+    if impl_edges != g['edges'] or G.number_of_vertices() != g['n'] or not nb_ok:
+        ctx.violation('correspondence', 'cnfgen.Graph.edges()/neighbors() are not in the order the models assume',
+                      dict(input=dict(graph=g), implementation=short(impl_edges)), False, site='Graph', cls='edge-order')
+
+
 def run(ctx):
     import_impl()
     quick = ctx.tier == 'quick'
+    seen_graphs = {}
     deferred = []   # known-class reports: (has_failing_input, args for ctx.violation)
     order_notes = {}
     for fam in fam_c02.FAMILIES:
@@ -283,6 +300,8 @@ def run(ctx):
             stream = name + '/' + p.get('stream', 'small')
             gs = [v for k, v in p.items() if isinstance(v, dict) and 'edges' in v]
             ctx.count(stream, pkey(fam, p), nontrivial=any(g['n'] >= 1 for g in gs), sample=p)
+            for g in gs:
+                check_graph_views(ctx, seen_graphs, g)
             tally(ctx, fam, p)
             impl = impl_formula(fam, p)
             rep = replies[i]
@@ -332,6 +351,14 @@ def run(ctx):
                         continue    # already reported above with its failing input
                     ctx.violation('counterexample', 'semantic test: the formula of %s does not mean the documented property' % site,
                                   dict(input=dict(family=name, params=p), failure=why), True, site=site, cls='semantics')
+    # hypothesis of the theorems on every graph used
+    gl = list(seen_graphs.values())
+    wf = ctx.model.batch([[Sym('graph_wf'), g['n'], [list(e) for e in g['edges']]] for g in gl])
+    for g, r in zip(gl, wf):
+        if r is not True:
+            ctx.violation('correspondence', 'a generated graph does not satisfy graph_wf (hypothesis of the theorems)',
+                          dict(input=dict(graph=g), model=str(r)), False, site='harness', cls='graph_wf')
+    ctx.tally('distinct graphs', len(gl))
     for name, (cnt, p) in sorted(order_notes.items()):
         ctx.note('%s: clause/constraint ORDER differs from the model on %d instance(s), e.g. %s (same set: not a violation)'
                  % (name, cnt, short(p, 200)))
